@@ -279,7 +279,7 @@ func (c *Ctx) adp(which map[string]bool) {
 			loaded := map[ssa.Value]ssa.Value{}
 			for i := range p.Events {
 				e := &p.Events[i]
-				if e.Kind == pathx.KLoad {
+				if e.Kind == pathx.KLoad && e.Val != nil {
 					if _, ok := e.Addr.(*ssa.Alloc); ok {
 						loaded[e.Result] = e.Val
 					}
@@ -307,6 +307,37 @@ func (c *Ctx) adp(which map[string]bool) {
 				}
 				if !bad {
 					a.pass()
+				}
+			}
+			// after the lists were cleaned, every use of a key list reads a cleanSequence result
+			firstClean := p.Index(0, func(e *pathx.Event) bool { return isCallTo(e, clean) })
+			if firstClean >= 0 {
+				for i := firstClean; i < len(p.Events); i++ {
+					e := &p.Events[i]
+					if e.Kind != pathx.KLoad {
+						continue
+					}
+					al, ok := e.Addr.(*ssa.Alloc)
+					if !ok || al.Type().String() != "*[]uint" {
+						continue
+					}
+					// operands of the cleaning calls themselves are the uncleaned lists, by definition
+					usedByClean := false
+					if refs := e.Result.Referrers(); refs != nil {
+						for _, r := range *refs {
+							if call, ok := r.(*ssa.Call); ok && call.Call.StaticCallee() == clean {
+								usedByClean = true
+							}
+						}
+					}
+					if usedByClean {
+						continue
+					}
+					if e.Val != nil && fromCall(e.Val, clean, map[ssa.Value]bool{}) {
+						a.pass()
+					} else {
+						a.fail(p, i, "%s is read after the cleaning step although it does not hold a cleanSequence result on this path: a decision is taken on records that are dropped afterwards", al.Comment)
+					}
 				}
 			}
 			// placeholder loops: the ranged slices
@@ -576,7 +607,37 @@ func (c *Ctx) adp(which map[string]bool) {
 		} else {
 			a.failAt(c.P.Pos(clean.Pos()), "the adjacency test n-p == 1 was not found")
 		}
-		a.done(3, "index restarts at 1 after truncation; each gap warns and truncates; adjacency is n-p==1 (or the wrap)")
+		// the PUBREL→PUBLISH continuity test of AdoptSession is the same predicate
+		pred := func(fn *ssa.Function) (sub1, zero, mask bool) {
+			for _, b := range fn.Blocks {
+				for _, ins := range b.Instrs {
+					bo, ok := ins.(*ssa.BinOp)
+					if !ok || (bo.Op != token.EQL && bo.Op != token.NEQ) {
+						continue
+					}
+					if s, ok := stripConv(bo.X).(*ssa.BinOp); ok && s.Op == token.SUB && isK(bo.Y, 1) {
+						sub1 = true
+					}
+					if and, ok := stripConv(bo.X).(*ssa.BinOp); ok && and.Op == token.AND && isK(and.Y, pm) {
+						if isK(bo.Y, 0) {
+							zero = true
+						}
+						if isK(bo.Y, pm) {
+							mask = true
+						}
+					}
+				}
+			}
+			return
+		}
+		s1, z1, m1 := pred(clean)
+		s2, z2, m2 := pred(ad)
+		if s1 && z1 && m1 && s2 && z2 && m2 {
+			a.pass()
+		} else {
+			a.failAt(c.P.Pos(ad.Pos()), "cleanSequence and the PUBREL→PUBLISH continuity test of AdoptSession disagree on what 'adjacent' means (n−p==1: %v/%v, n==0: %v/%v, p==publishIDMask: %v/%v): at the 14-bit roll-over one of them sees a gap the other does not", s1, s2, z1, z2, m1, m2)
+		}
+		a.done(3, "index restarts at 1 after truncation; each gap warns and truncates; adjacency is n-p==1 (or the wrap), in both places")
 	}
 }
 
